@@ -124,6 +124,31 @@ def import_searchkit():
     return searchkit
 
 
+@contextlib.contextmanager
+def debug_logging(on=True):
+    """ run the code under test with the searchkit logger at DEBUG and a handler that really
+    FORMATS every record (into a discarded buffer): log arguments are then evaluated (repr of
+    objects, properties read for a message) - behaviour must not depend on that """
+    if not on:
+        yield
+        return
+    import io  # pylint: disable=import-outside-toplevel
+    import logging  # pylint: disable=import-outside-toplevel
+    lg = logging.getLogger('searchkit')
+    saved = (lg.level, list(lg.handlers), lg.propagate)
+    h = logging.StreamHandler(io.StringIO())
+    h.setFormatter(logging.Formatter('%(asctime)s %(process)d %(levelname)s %(name)s %(message)s'))
+    lg.handlers = [h]
+    lg.setLevel(logging.DEBUG)
+    lg.propagate = False
+    try:
+        yield
+    finally:
+        lg.setLevel(saved[0])
+        lg.handlers = saved[1]
+        lg.propagate = saved[2]
+
+
 # --------------------------------------------------------------------------
 # Lean side
 # --------------------------------------------------------------------------
